@@ -201,6 +201,52 @@ def anchor_check(hs):
     return lost
 
 
+UNWIND_SITES = [
+    ("src/lib.rs", r"CcBox::trace_inner\(ptr, &mut ctx\);"),
+    ("src/lib.rs", r"^\s*__trace_counting\(ptr, root_list, non_root_list, queue\);"),
+    ("src/lib.rs", r"^\s*__trace_roots\(ptr, non_root_list, &mut queue\);"),
+    ("src/lib.rs", r"^\s*trace_counting\(possible_cycles,"),
+    ("src/lib.rs", r"^\s*trace_roots\(root_list,"),
+    ("src/lib.rs", r"^\s*__collect\(state, possible_cycles\);"),
+    ("src/lib.rs", r"^\s*collect\(state, pc\);"),
+    ("src/lib.rs", r"^\s*deallocate_list\(non_root_list, state\);"),
+    ("src/lib.rs", r"^\s*\}\);\s*$"),   # end of a fold / for_each closure that ran callbacks (checked only when it follows finalize_inner / drop_inner)
+    ("src/cc.rs", r"self\.inner\(\)\.get_elem\(\)\.finalize\(\);"),
+    ("src/cc.rs", r"^\s*drop_in_place\(self\.inner\(\)\.get_elem_mut\(\)\);"),
+    ("src/cc.rs", r"trigger_collection\(state\);"),
+    ("src/weak/mod.rs", r"let to_write = f\(&weak\);"),
+    ("src/weak/mod.rs", r"trigger_collection\(state\);"),
+]
+
+
+def unwind_hook_check():
+    """A-UNWIND cross-check (DESIGN 2.5): every call site that can run user code is followed by an H4 hook
+    (or is the last statement of its block).  Returns the list of unhooked sites."""
+    missing = []
+    n_sites = 0
+    for rel, pat in UNWIND_SITES:
+        path = os.path.join(REPO(), rel)
+        if not os.path.exists(path):
+            continue
+        lines = open(path).read().splitlines()
+        for i, line in enumerate(lines):
+            if "fn " in line and "(" in line and line.strip().startswith(("fn ", "pub fn", "pub(crate) fn", "pub(super) fn")):
+                continue
+            if not re.search(pat, line) or "verification hook" in line:
+                continue
+            if pat.startswith(r"^\s*\}\);"):
+                # only closures whose body called a callback dispatcher
+                body = "\n".join(lines[max(0, i - 12):i])
+                if "finalize_inner(" not in body and "drop_inner(" not in body:
+                    continue
+            n_sites += 1
+            nxt = [l for l in lines[i + 1:i + 4] if l.strip() and not l.strip().startswith("//")][:2]
+            ok = any("verification hook (H4)" in l for l in lines[i + 1:i + 4]) or (nxt and nxt[0].strip().startswith("}"))
+            if not ok:
+                missing.append("%s:%d: %s" % (rel, i + 1, line.strip()[:80]))
+    return n_sites, missing
+
+
 def scan_assumptions(files):
     """Mechanical scan: every kani::assume / stub / should_panic in the proof files used."""
     out = []
@@ -317,6 +363,10 @@ def main(a):
         return 2
 
     lost = anchor_check(hs)
+    if meta.get("unwind_emulation"):
+        n_sites, missing = unwind_hook_check()
+        if missing:
+            lost += ["call site that can run user code without an unwind hook (A-UNWIND incomplete): " + m for m in missing]
     if lost:
         print("UNDECIDED property=%s lost anchors: %s" % (pid, "; ".join(lost)))
         return 2
